@@ -141,8 +141,11 @@ func coqUpload(p *program, o *observation) (string, bool) {
 		obs = append(obs, hk.CoqPair(coqParts(ct, w.Body), hk.CoqBool(!w.BodyErr)))
 	}
 	// a retry was counted (RetryAttempt) that never reached the wire: the retry was refused
-	failed := !o.UpFront && o.Attempt == len(o.Wires)
 	e := effectiveOf(p)
+	failed := !o.UpFront && o.Attempt == len(o.Wires)
+	if n := len(o.Wires); failed && n > 0 && n <= len(p.Script) && p.Script[n-1].WaitCancel && e.Interval > 0 {
+		failed = false // the retry was abandoned because the context ended, not because an upload failed
+	}
 	return fmt.Sprintf("UploadCase %s %s %s %s %s %s %s %s %s", hk.CoqBool(e.Has && e.N != 0), hk.CoqBool(sh.Chunked), coqAmap(sh.CForm), coqAmap(sh.RForm),
 		hk.CoqList(files), hk.CoqList(tab), hk.CoqList(obs), hk.CoqBool(failed), hk.CoqBool(o.UpFront)), true
 }
